@@ -28,6 +28,12 @@ class GatedWriter(FakeWriter):
         self._drain_waiters: list[asyncio.Future] = []
         self._close_waiters: list[asyncio.Future] = []
         self.writes: list[bytes] = []       # every write() that reached the wire (in order)
+        # (additive, C10 round 4) a transport whose peer has stopped reading while output is still queued: `close()`
+        # only marks it closing — it stays alive, still takes writes (a real selector transport appends to its
+        # buffer as long as the connection is not lost) and `wait_closed()` does not return before `unstall()`
+        self.stall = False
+        self.closing_stalled = False
+        self.close_exc: Optional[BaseException] = None   # what wait_closed() raises (connection_lost(exc))
 
     def write(self, data):
         n = len(self.sent)
@@ -61,6 +67,9 @@ class GatedWriter(FakeWriter):
                 f.set_exception(ConnectionResetError('connection lost (fake)'))
 
     def close(self):
+        if self.stall and not self._closed:
+            self.closing_stalled = True       # told to close; the queued output keeps the transport alive
+            return
         # a graceful close of one side (FIN) does not wake the other side's drain waiters
         was = self._closed
         super().close()
@@ -75,8 +84,19 @@ class GatedWriter(FakeWriter):
             if self.peer is not None and isinstance(self.peer, GatedWriter):
                 self.peer._wake_drain_closed()
 
+    def is_closing(self):
+        return self._closed or self.closing_stalled
+
+    def unstall(self):
+        """the peer reads again: the queued output goes out, the transport finishes closing"""
+        self.stall = False
+        if self.closing_stalled:
+            self.closing_stalled = False
+            self.close()
+        self.release_close()
+
     async def wait_closed(self):
-        if self.close_block:
+        if self.close_block or self.closing_stalled:
             fut = asyncio.get_running_loop().create_future()
             self._close_waiters.append(fut)
             try:
@@ -84,12 +104,17 @@ class GatedWriter(FakeWriter):
             finally:
                 if fut in self._close_waiters:
                     self._close_waiters.remove(fut)
+        elif self.close_exc is not None:
+            raise self.close_exc
 
-    def release_close(self):
+    def release_close(self, exc: Optional[BaseException] = None):
         self.close_block = False
         for f in list(self._close_waiters):
             if not f.done():
-                f.set_result(None)
+                if exc is not None:
+                    f.set_exception(exc)
+                else:
+                    f.set_result(None)
 
     def close_parked(self) -> bool:
         return any(not f.done() for f in self._close_waiters)
